@@ -1,6 +1,7 @@
 package props
 
 import (
+	"crypto/sha256"
 	"fmt"
 	"os"
 	"runtime"
@@ -126,9 +127,11 @@ func noReturnSecs() int {
 }
 
 // returnsInTime runs f on its own goroutine. It reports false when f has not returned within the bound while a
-// control call (a trivial validation started after the bound expired) does return: the machine is making progress
-// and this call is not. When the control does not return either, or the process has grown beyond 8 GiB while
-// waiting, nothing can be concluded and the process ends as inconclusive. The runaway goroutine cannot be stopped,
+// control computation that does not involve the code under test (started after the bound expired) completes at its
+// usual speed: the machine is making progress and this call is not. The control deliberately stays outside the
+// library: a defect that blocks every later call of the process (a leaked semaphore) would block a library control
+// too. When the control is slow or does not complete, or the process has grown beyond 8 GiB while waiting, nothing
+// can be concluded and the process ends as inconclusive. The runaway goroutine cannot be stopped,
 // so the caller must end the process after a false result.
 func returnsInTime[T any](id string, f func() T) (out T, ok bool) {
 	done := make(chan T, 1)
@@ -147,20 +150,36 @@ func returnsInTime[T any](id string, f func() T) (out T, ok bool) {
 				ev.Inconclusive(id, "a call has not returned and the process grew to %d MiB", ms.Sys>>20)
 			}
 		case <-limit:
-			ctl := make(chan bool, 1)
+			// is the machine making progress at all? A fixed piece of work that does not touch the code under test
+			// (hashing 16 MB) costs some tens of milliseconds; when it needs more than ten seconds, or the process
+			// cannot even schedule it within a minute, nothing can be concluded about the call.
+			ctl := make(chan time.Duration, 1)
 			go func() {
-				r := guard(func() (string, error) {
-					return pkg.Validate("profile: ctl\nvalidations: {}\n", "[]", false, nil)
-				})
-				ctl <- r.Panic == ""
+				t0 := time.Now()
+				h := sha256.New()
+				block := make([]byte, 1<<20)
+				for i := 0; i < 16; i++ {
+					h.Write(block)
+				}
+				_ = h.Sum(nil)
+				ctl <- time.Since(t0)
 			}()
 			select {
-			case <-ctl:
-				return out, false
+			case d := <-ctl:
+				if d > 10*time.Second {
+					ev.Inconclusive(id, "the machine is stalled (a fixed 16 MB hash took %v)", d)
+				}
+				// one more chance for a call that was merely slow
+				select {
+				case out = <-done:
+					return out, true
+				case <-time.After(5 * time.Second):
+					return out, false
+				}
 			case out = <-done:
 				return out, true
 			case <-time.After(60 * time.Second):
-				ev.Inconclusive(id, "neither the call nor a trivial control call returned: the machine is stalled")
+				ev.Inconclusive(id, "neither the call nor a trivial control computation returned: the machine is stalled")
 			}
 		}
 	}
